@@ -14,6 +14,7 @@ fn relevant(family: &str) -> bool {
         || family.starts_with("blobs")
         || family.starts_with("enums")
         || family.starts_with("globals")
+        || (family.starts_with("scale:") && ["locals", "closure", "parameters", "calls", "call-heavy"].iter().any(|w| family.contains(w)))
         || [
             "expr@closure-sees-later-assignment", "expr@closure-per-iteration", "expr@fn-result", "expr@method-result", "expr@held-across",
             "expr@early-ret", "expr@argument-after-tick", "expr@fn-param-shadows-global", "expr@ret-in-loop", "expr@case-arm-value", "expr@loop-twice",
